@@ -118,6 +118,25 @@ def sync_input(draw):
     return {"c": "X = 1\n\n" + c + "\n", "f": f + "\n", "a": "import json\n\n" + a + "\n", "truth": draw(st.sampled_from(["class", "function", "argparse_function"]))}
 
 
+ODD_SCALARS = ["bytes", "Decimal", "UUID", "object", "Blob", "datetime", "complex"]
+
+
+@st.composite
+def odd_typed_class(draw):
+    """class attributes of scalar types outside the type tables, alone and inside 2-member Unions - the shape on which
+    a module-level table that is WRITTEN during a conversion makes a later conversion differ"""
+    n = draw(st.integers(1, 3))
+    ns = draw(st.lists(gen_ir.names, min_size=n, max_size=n, unique=True))
+    lines = ["class K(object):", '    """', "    The K.", ""]
+    body = []
+    for a in ns:
+        t = draw(st.sampled_from(ODD_SCALARS))
+        typ = draw(st.sampled_from([t, "Union[str, %s]" % t, "Union[int, %s]" % t, "Optional[%s]" % t, "List[%s]" % t]))
+        lines.append("    :cvar %s: the %s" % (a, a))
+        body.append("    %s: %s" % (a, typ))
+    return {"src": "\n".join(lines + ['    """'] + body) + "\n"}
+
+
 def json_schema_input():
     def build(case):
         from vlib import hops
@@ -166,6 +185,7 @@ def build_job(ctx):
     add("fn", fn_subset(), ["function_parse", "function_roundtrip", "function_to_class", "function_to_argparse", "function_to_docstring"], n * 2)
     add("cls", emitted("class"), ["class_parse", "class_to_all"], n)
     add("arg", emitted("argparse", "common"), ["argparse_parse"], max(2, n // 2))
+    add("odd", odd_typed_class(), ["class_parse", "class_to_all"], n)
     add("js", json_schema_input(), ["json_parse", "openapi"], max(2, n // 2))
     add("sql", emitted("sqlalchemy", "common", class_name="Foo", table_name="foo_tbl"), ["sqlalchemy_parse", "sqlalchemy_variants"], max(2, n // 2))
     from vlib import gen_doc
